@@ -235,6 +235,7 @@ static void handler(int kind, const void *obj, int a, int b, int c)
         }
         if (diff) g_probe[PR_SPLITS_DIFF_THREAD]++;
     } break;
+    case KV_DIST_CELL: { uint64_t n = (uint64_t)simomp_team_size(); if (n > g_probe[PR_DIST_THREADS]) g_probe[PR_DIST_THREADS] = n; } break;
     case KV_KM_ENTER: g_probe[PR_KM_NODES]++; ps->km_entered = 1; ps->km_left = 0; break;
     case KV_KM_LEAVE: ps->km_left = 1; break;
     case KV_KM_JOIN:
